@@ -18,7 +18,23 @@ verus! {
 //@include env/model_network_types.vs
 //@include env/model_spec.vs
 //@include-trusted env/model_fns.vs
-//@include env/solution_types.vs
+// env/solution_types.vs, copied (not included) because the derived Clone of Tour must be dropped to give it a specification
+//@item solution/src/tour.rs type Position : plain
+//@end
+//@item solution/src/tour.rs struct Tour : plain
+//@drop-derive Clone
+//@end
+// A-derive: the derived Clone of Tour is structural (a Vec, scalars, an Arc)
+impl Clone for Tour {
+    #[verifier::external_body]
+    fn clone(&self) -> (r: Self)
+        ensures r == *self
+    { unimplemented!() }
+}
+//@item solution/src/path.rs struct Path : plain
+//@end
+//@item solution/src/segment.rs struct Segment : plain
+//@end
 //@include env/tour_spec.vs
 //@include env/sums.vs
 //@include-trusted env/dist_ops.vs
@@ -409,6 +425,104 @@ impl Clone for TransitionCycle {
             && r.maintenance_violation == viol_sum(r.next_period_transitions@, sched_types(self)), // @obl C09.recompute_transitions_for.transitions_recomputed
 //@closure unwrap_or_else#0
     -> (q: Vec<VehicleTypeIdx>) ensures q@ == sched_types(self)
+//@end
+
+// =====================================================================================================
+// (3) improve_depots_of_tour and improve_depots
+// =====================================================================================================
+// R7a stubs: verified in env/tour_accessors.vs (slice tour_ctor) / slice tour_mod / slice sched_guard with the same text
+//@item solution/src/tour.rs Tour::start_depot : trusted
+//@retname r
+//@sig
+    requires self.wf(),
+    ensures !self.is_dummy ==> r == Ok::<NodeIdx, String>(sp_start_depot(self)),
+//@end
+//@item solution/src/tour.rs Tour::end_depot : trusted
+//@retname r
+//@sig
+    requires self.wf(),
+    ensures !self.is_dummy ==> r == Ok::<NodeIdx, String>(sp_end_depot(self)),
+//@end
+//@item solution/src/tour/modifications.rs Tour::replace_start_depot : trusted
+//@retname r
+//@sig
+    requires self.wf(), self.caches_ok(), self.network.has(new_start_depot), tour_len_ok(self.nodes@),
+    ensures
+        r is Ok <==> !self.is_dummy && self.network.sp_node(new_start_depot) is StartDepot,
+        // C13/C01: a depot-only operation changes no activity; the tour stays valid
+        r is Ok ==> r->Ok_0.nodes@ == self.nodes@.update(0, new_start_depot) && r->Ok_0.is_dummy == self.is_dummy && r->Ok_0.network == self.network,
+        r is Ok ==> r->Ok_0.wf(), // @obl C01.replace_start_depot.wf
+        r is Ok ==> r->Ok_0.caches_ok(), // @obl C09.replace_start_depot.caches
+//@end
+// A-stub (text as in slices/spawn_vehicle.vs: not verified in any slice; contract written from the body: the first depot of
+// `network.start_depots_sorted_by_distance_to(..)` -- a sorted copy of `start_depot_nodes` -- that can spawn the vehicle
+// according to the GIVEN usage table).  The `expect("There should be at least the overflow depot available.")` inside
+// is NOT covered.
+//@item solution/src/schedule/modifications.rs Schedule::find_best_start_depot_for_spawning : trusted
+//@retname r
+//@sig
+    ensures self.network.start_depot_nodes@.contains(r),
+//@end
+// A-stub (first clause: text as in slices/spawn_vehicle.vs; second clause NEW, written from the body: `first()` of
+// `network.end_depots_sorted_by_distance_from(..)` -- a sorted copy of `end_depot_nodes` -- is Some iff that list is
+// not empty).  Depot capacities play no role in it.
+//@item solution/src/schedule/modifications.rs Schedule::find_best_end_depot_for_despawning : trusted
+//@retname r
+//@sig
+    ensures
+        r is Ok ==> self.network.end_depot_nodes@.contains(r->Ok_0),
+        r is Ok <==> self.network.end_depot_nodes@.len() > 0,
+//@end
+// A-stub (= `self.all_non_depot_nodes_iter().next()`): the first node of the tour that is no depot
+//@item solution/src/tour.rs Tour::first_non_depot : trusted
+//@retname r
+//@sig
+    requires all_in_net(&self.network, self.nodes@),
+    ensures is_first_non_depot(self, r),
+//@end
+
+//@item solution/src/schedule/modifications.rs Schedule::improve_depots_of_tour
+//@retname r
+//@sig
+    requires
+        // instance validity; the network has an end depot (`find_best_end_depot_for_despawning(..).unwrap()`)
+        self.network.wf(), depot_nodes_ok(&self.network), self.network.end_depot_nodes@.len() > 0,
+        // the tour is a valid real tour of the schedule's network with exact caches (`first_non_depot().unwrap()`,
+        // `start_depot().unwrap()`, `replace_start_depot(..).unwrap()`, ...)
+        tour.wf(), !tour.is_dummy, *tour.network == *self.network, tour.caches_ok(), tour_len_ok(tour.nodes@),
+    ensures
+        // C13 "depot-only operations change no activity": only the start and / or the end depot node may differ
+        depots_replaced(&self.network, tour, &r), // @obl C13.improve_depots_of_tour.no_activity_changes
+        same_activities(tour, &r), // @obl C13.improve_depots_of_tour.no_activity_changes
+//@first
+        proof {
+            assert forall|q: Option<NodeIdx>| is_first_non_depot(tour, q) implies q == Some(tour.nodes@[1]) by { lemma_first_non_depot(tour, q); }
+        }
+//@before "let intermediate_tour"
+        proof {
+            let sdn = self.network.start_depot_nodes@;
+            let i = choose|i: int| 0 <= i < sdn.len() && sdn[i] == new_start_depot;
+            assert(self.network.has(sdn[i]) && self.network.sp_node(sdn[i]) is StartDepot);
+        }
+//@before "let last_non_depot"
+        let ghost it0 = intermediate_tour;
+        proof {
+            assert(it0.nodes@ =~= tour.nodes@.update(0, sp_start_depot(&it0)));
+            assert forall|q: Option<NodeIdx>| is_last_non_depot(&it0, q) implies q == Some(it0.nodes@[it0.len() - 2]) by { lemma_last_non_depot(&it0, q); }
+        }
+//@after "let new_end_depot"
+        proof {
+            let edn = self.network.end_depot_nodes@;
+            let i = choose|i: int| 0 <= i < edn.len() && edn[i] == new_end_depot;
+            assert(self.network.has(edn[i]) && self.network.sp_node(edn[i]) is EndDepot);
+            let n = tour.len();
+            // whichever branch is taken, the result is it0 with the last node set to its own last node
+            assert forall|t: Tour| t.nodes@ == it0.nodes@.update(n - 1, sp_end_depot(&t)) implies
+                t.nodes@ == tour.nodes@.update(0, sp_start_depot(&t)).update(n - 1, sp_end_depot(&t)) by {
+                assert(t.nodes@ =~= tour.nodes@.update(0, sp_start_depot(&t)).update(n - 1, sp_end_depot(&t)));
+            }
+            assert(it0.nodes@ =~= it0.nodes@.update(n - 1, sp_end_depot(&it0)));
+        }
 //@end
 
 } // mod tr
